@@ -3,7 +3,7 @@
 From Coq Require Import List ZArith NArith Bool.
 Import ListNotations.
 From Verif Require Import C15.Tree C15.Opt C15.Allowed C15.Corr C15.Sound C15.Refuted Gen.Tables.
-From Verif Require C01.Lisp C01.Gen C15.Sem.
+From Verif Require C01.Lisp C01.Gen C15.Sem C15.SemL C01L.LLisp C01L.LPy C01L.LGen C01L.LTop.
 Local Open Scope N_scope.
 
 (** Obligations on the tables regenerated from optimizer.py on every run: each operator
@@ -40,6 +40,19 @@ Theorem C15_optimized_compile_correct_partial : forall e v tr,
   Sem.run_opt e = Some (v, tr).
 Proof. exact Sem.optimized_compile_correct. Qed.
 
+(** the same on the subset with `while True` / break / continue (dead code after a jump is
+    dropped too), for every fuel; composed with the loop simulation theorem of C01L *)
+Theorem C15_stmt_rewrites_preserve_loops : forall m F l r,
+  LPy.lexec m F l = Some r -> LPy.lexec m F (SemL.lopt l) = Some r.
+Proof. exact SemL.lopt_stmts_preserves. Qed.
+Theorem C15_optimized_compile_correct_loops_partial : forall fuel e v tr,
+  LLisp.leval fuel (fun _ => None) e = Some (LLisp.OVal v, tr) -> LGen.hazard_free e = true ->
+  exists m, forall m', (m <= m')%nat -> SemL.lrun_opt m' e = Some (v, tr).
+Proof. exact SemL.optimized_loops_compile_correct. Qed.
+Example C15_dead_code_rule_fires :
+  let '(d, _, _, _) := LGen.lgen (fun _ => None) [] 0 LTop.count_loop in SemL.lopt d <> d.
+Proof. exact SemL.lopt_nonvacuous. Qed.
+
 (** REFUTED clauses: the model of the pass (tied to the code by the correspondence run)
     performs rewrites that are not allowed. *)
 Theorem C15_is_to_eq_not_allowed : ~ allowed Refuted.w_is (Opt.opt Refuted.w_is).
@@ -61,6 +74,9 @@ Print Assumptions C15_table_expr_droppable.
 Print Assumptions C15_check_sound.
 Print Assumptions C15_stmt_rewrites_preserve.
 Print Assumptions C15_optimized_compile_correct_partial.
+Print Assumptions C15_stmt_rewrites_preserve_loops.
+Print Assumptions C15_optimized_compile_correct_loops_partial.
+Print Assumptions C15_dead_code_rule_fires.
 Print Assumptions C15_is_to_eq_not_allowed.
 Print Assumptions C15_contains_swap_not_allowed.
 Print Assumptions C15_async_global_not_allowed.
